@@ -24,7 +24,8 @@ import numpy as np
 
 from . import common as C
 
-TIMEOUT = 10.0
+TIMEOUT = 120.0     # wall seconds for one hand-over between the scheduler and a worker thread (never reached on the
+                    # passing path; generous so that a loaded machine cannot fake a stuck thread)
 
 
 class Stuck(Exception):
